@@ -40,11 +40,18 @@ def build(mir, cube):
         json_ = Agg([{'source': src}.get(f, O) for f in st['JsonModule']])
         a = eng.call(mir.find('JsModule', 'size'), [ref_to(js, 'js')], TRUE)
         b = eng.call(mir.find('JsonModule', 'size'), [ref_to(json_, 'json')], TRUE)
-        qs.append(Query('js-module-size-is-the-byte-length-of-the-stored-text', a != ln))
-        qs.append(Query('json-module-size-is-the-byte-length-of-the-stored-text', b != ln))
-        qs.append(Query('witness-bom-kind', kind == mir.enums['DecodedArcSourceDetailKind'].index('OnlyUtf8Bom'), expect='sat', kind='witness'))
+        class W:
+            def to_json(self, m): return {'positions': True}
+        class OpSize:
+            def op_json(self, m): return {'op': 'module_size', 'len': ev(m, ln), 'kind': ev(m, kind)}
+            def decode(self, m): return {'js': ev(m, a), 'json': ev(m, b)}
+        real = [z3.ULE(ln, 64)]
+        qs.append(Query('js-module-size-is-the-byte-length-of-the-stored-text', a != ln, ops=[OpSize()], world=W(), realizable=real))
+        qs.append(Query('json-module-size-is-the-byte-length-of-the-stored-text', b != ln, ops=[OpSize()], world=W(), realizable=real))
+        qs.append(Query('witness-bom-kind', kind == mir.enums['DecodedArcSourceDetailKind'].index('OnlyUtf8Bom'), expect='sat', kind='witness', ops=[OpSize()], world=W(), realizable=real))
     elif cube['part'] == 'charset':
         has_header = sym.bool('header_charset_given')
+        eng.cfg['scheme'] = [sym.bv('specifier_scheme', 8, lt=len(SCHEMES))]
         eng.cfg.update(decode_ok_tag=sym.bv('decode_result', 8, lt=2), decoded_len=sym.bv('decoded_len', 64), decoded_kind=sym.bv('decoded_kind', 8, lt=3))
         header = opt(has_header, ref_to(SymStr('header-charset'), 'hdr'))
         name = mir.index[(None, None, 'new_source_with_text')]
@@ -56,8 +63,17 @@ def build(mir, cube):
             if tag == 'header-charset': wrong.append(z3.And(g, z3.Not(has_header)))
             elif tag == 'detected-charset': wrong.append(z3.And(g, has_header))
             else: wrong.append(g)
+        used_header = Or(g for g, cs in calls if isinstance(cs, SymStr) and cs.tag == 'header-charset')
+        class W:
+            def to_json(self, m): return {'positions': True}
+        class OpCs:
+            def op_json(self, m): return {'op': 'charset_choice', 'has_header': ev(m, has_header), 'scheme': SCHEMES[ev(m, eng.cfg['scheme'][0])] if SCHEMES[ev(m, eng.cfg['scheme'][0])] != 'other' else 'ext'}
+            def decode(self, m): return {'used': 'header-charset' if ev(m, used_header) else 'detected-charset'}
+        # natively replayable: the module decodes at all (decoder succeeds) and the scheme is one a module can be parsed under
+        real = [eng.cfg['decode_ok_tag'] == 0, z3.Or([eng.cfg['scheme'][0] == SCHEMES.index(x) for x in ('file', 'https', 'http')])]
         qs.append(Query('decoder-is-called-exactly-once', z3.Not(z3.PbEq([(g, 1) for g, _ in calls], 1)) if calls else z3.BoolVal(True)))
-        qs.append(Query('header-charset-wins-else-detected-charset', Or(wrong)))
+        qs.append(Query('header-charset-wins-else-detected-charset', Or(wrong), ops=[OpCs()], world=W(), realizable=real))
+        qs.append(Query('witness-header-charset-used', z3.And(has_header, used_header), expect='sat', kind='witness', ops=[OpCs()], world=W(), realizable=real))
         ok = r.vars[0].f[0]
         txt = ok.f[st['ModuleTextSource'].index('text')]; kd = ok.f[st['ModuleTextSource'].index('decoded_kind')]
         qs.append(Query('stores-exactly-the-decoders-text-and-kind-or-an-error', z3.Or(r.is_variant(1) != (eng.cfg['decode_ok_tag'] == 1),
